@@ -304,7 +304,8 @@ pub fn check(p: &dyn Property, thorough: bool, meta: Meta) -> i32 {
     let mut violations = 0;
     let mut known_hits: BTreeSet<String> = BTreeSet::new();
     let mut reported: Vec<Value> = Vec::new();
-    std::fs::create_dir_all(format!("{}/replays", root)).ok();
+    let rpdir = std::env::var("VERIF_REPLAY_DIR").unwrap_or(format!("{}/replays", root));
+    std::fs::create_dir_all(&rpdir).ok();
     for (class, list) in by_class.iter() {
         // known findings are matched per concrete case key
         let mut unknown: Vec<&(u64, u64, Found)> = Vec::new();
@@ -326,7 +327,7 @@ pub fn check(p: &dyn Property, thorough: bool, meta: Meta) -> i32 {
             // minimisation landed on a known case; the unminimised one is still new
             let _ = k;
         }
-        let path = format!("{}/replays/{}-{}-{}.json", root, p.id(), seed, sanitize(class));
+        let path = format!("{}/{}-{}-{}.json", rpdir, p.id(), seed, sanitize(class));
         let file = json!({
             "property": p.id(),
             "class": class,
@@ -421,8 +422,9 @@ pub fn check(p: &dyn Property, thorough: bool, meta: Meta) -> i32 {
         "wall_s": wall,
         "violations": violations
     });
-    std::fs::create_dir_all(format!("{}/evidence", root)).ok();
-    write_json(&format!("{}/evidence/{}.json", root, p.id()), &ev).expect("write evidence");
+    let evdir = std::env::var("VERIF_EVIDENCE_DIR").unwrap_or(format!("{}/evidence", root));
+    std::fs::create_dir_all(&evdir).ok();
+    write_json(&format!("{}/{}.json", evdir, p.id()), &ev).expect("write evidence");
     crate::say!(
         "momsim done property={} runs={} distinct_nontrivial={} violations={} known={} wall_s={:.1}",
         p.id(),
